@@ -26,7 +26,17 @@ impl Subject for Btor2 {
         loop {
             match p.next_line() {
                 Ok(Some(line)) => emit(format!("{line:?}")),
-                Ok(None) => return End::Clean,
+                Ok(None) => {
+                    // a driver may ask again after the end: the answer stays "end of the input"
+                    for _ in 0..2 {
+                        match p.next_line() {
+                            Ok(None) => {}
+                            Ok(Some(_)) => emit("AFTER-END: another line was handed out after the end of the input".to_string()),
+                            Err(e) => return end_of(e),
+                        }
+                    }
+                    return End::Clean;
+                }
                 Err(e) => return end_of(e),
             }
         }
